@@ -468,13 +468,17 @@ func boolInt(b bool) int {
 
 var adversarial = []string{
 	"plain", "<script>alert(1)</script>", `"quoted"`, "it's", "a&b", "javascript:alert(1)", "x\x00y",
-	"\xff\xfe", "  spaced  ", "a=b&c=d", "http://e.x/p?q=1#f", "/rel/path", "</textarea>", "--><b>", "`tick`",
+	"\x00INVALIDUTF8", "  spaced  ", "a=b&c=d", "http://e.x/p?q=1#f", "/rel/path", "</textarea>", "--><b>", "`tick`",
 	"&amp;&#x3c;", "%41%", "über", strings.Repeat("A", 70), "", "0", "data:text/html,x", "a\nb", "' onx='y",
 }
 
 func (g *gen) leaf(tag string) *Val {
 	n := g.r.Intn(100)
 	s := g.pick(adversarial) + "#" + tag
+	if strings.HasPrefix(s, "\x00INVALIDUTF8") {
+		// invalid UTF-8 does not survive JSON: carried hex-encoded
+		return &Val{K: "strx", S: fmt.Sprintf("%x", "\xff\xfe\xc0<\x80"+tag)}
+	}
 	switch {
 	case n < 55:
 		return &Val{K: "str", S: s}
